@@ -1,5 +1,7 @@
 import RainModel.Lemmas.LoopPeers
 import RainModel.Lemmas.LoopMeta
+import RainModel.Lemmas.LoopIdl
+import RainModel.Lemmas.LoopWeak
 /-!
 C13 — magnet metadata, loop level (M-LOOP): the info dictionary is adopted only through the hash gate,
 never for a private torrent, and a metadata download is only ever started for an admissible size.
@@ -107,6 +109,48 @@ theorem oversize_never_requested (s : St) (impl : List Nat) (h : (reconcileIdl s
   · exact Or.inl h1
   · exact Or.inr ⟨h0, hmax, hi, p, hp, hm, hs.symm⟩
 
+/-- **The size bound is a step invariant.** `IdlInv s`: every running metadata download is for a size
+`0 < size ≤ maxMeta`.  No event of the loop, whatever its parameters, creates a metadata download or
+changes the size of one (they are closed with their peer, cleared by `stop` and by the completion of the
+metadata, or updated in place by data messages and snubs), and `maxMeta` never changes. -/
+theorem idl_size_bound_step (s : St) (p : Parked) (kn : Nat → Bool) (op : Op) (h : IdlInv s) :
+    IdlInv (step s p kn op).1.st ∧ (step s p kn op).1.st.maxMeta = s.maxMeta :=
+  ⟨step_idlInv s p kn op h, step_maxMeta ..⟩
+
+/-- … and it survives the adoption of the implementation's choices: any choice of piece downloads
+(`reconcile` does not touch `idls`), and a choice of metadata downloads that `reconcileIdl` accepted. -/
+theorem idl_size_bound_adopt (s : St) (impl : List ImplDl) (implI : List Nat) (h : IdlInv s)
+    (ha : (reconcileIdl (reconcile s impl).1 implI).2 = []) :
+    IdlInv (reconcileIdl (reconcile s impl).1 implI).1 :=
+  reconcileIdl_idlInv _ _ (reconcile_idlInv s impl h) ha
+
+/-- **oversize_never_requested_run.** Along every history from a freshly added torrent — any events with
+any parameters, any choices of piece downloads (admissible or not), and choices of metadata downloads that
+`reconcileIdl` accepted after every event (`drunAdmissibleI`: the runs on which the driver reports no C13
+violation) — no metadata download in `idls` is for a metadata size above `MaxMetadataSize`, or for size 0;
+and `maxMeta` is still the configured value. -/
+theorem oversize_never_requested_run (s0 : St) (h0 : InitLike s0) (evs : List Ev)
+    (ha : drunAdmissibleI (s0, none) evs) :
+    (∀ d ∈ (drun (s0, none) evs).1.idls, d.size ≠ 0 ∧ d.size ≤ s0.maxMeta) ∧
+    (drun (s0, none) evs).1.maxMeta = s0.maxMeta := by
+  have hm : ∀ (evs : List Ev) (sp : St × Parked), (drun sp evs).1.maxMeta = sp.1.maxMeta := by
+    intro evs
+    induction evs with
+    | nil => intro sp; rfl
+    | cons e evs ih =>
+      intro sp
+      show (drun (dstep sp e) evs).1.maxMeta = _
+      rw [ih]
+      unfold dstep
+      simp
+  have hinv : IdlInv s0 := by
+    intro d hd; rw [h0.idls] at hd; cases hd
+  have := drun_idlInv evs (s0, none) hinv ha
+  refine ⟨fun d hd => ?_, hm evs _⟩
+  have h1 := this d hd
+  rw [hm evs] at h1
+  exact h1
+
 /-! Non-vacuity: a public magnet torrent adopts the metadata from an honest one-block answer; the same
 answer to a private one does not. -/
 example :
@@ -120,5 +164,32 @@ example :
     let s : St := { cfg := c, info := false, errC := true, isize := 100,
                     idls := [{ k := 1, size := 100, nb := 1, pending := 1, blocks := [none] }] }
     (handleMetadataData (s, []) 1 0 100 true).1.info = false := by decide
+
+/-! Non-vacuity of `oversize_never_requested_run`: a magnet torrent, two peers advertise `ut_metadata`, one
+with an admissible size (the implementation starts a download from it: accepted, `idls` holds it), one
+with a size above the cap; a download from the second is **not** accepted by `reconcileIdl`. -/
+section Example
+private def cm : Cfg := { pl := 16384, plens := [], blocks := [], flens := [], fpads := [], fnames := [] }
+private def sm : St := { cfg := cm, info := false, infoAtAdd := false, isize := 100, maxMeta := 1000 }
+private def kn (l : List Nat) : Nat → Bool := fun k => l.contains k
+private def evsm : List Ev := [
+  ⟨.start, kn [], [], []⟩,
+  ⟨.peer 1 "10.0.0.2" true true false, kn [], [], []⟩,
+  ⟨.peer 2 "10.0.0.3" true true false, kn [1], [], []⟩,
+  ⟨.exths 1 true 100 false, kn [1, 2], [], [1]⟩,
+  ⟨.exths 2 true 5000 false, kn [1, 2], [], [1]⟩]
+
+example : drunAdmissibleI (sm, none) evsm := by
+  simp only [evsm, drunAdmissibleI, Ev.admissibleI, and_true]
+  decide
+
+example : (drun (sm, none) evsm).1.idls.map (fun d => (d.k, d.size)) = [(1, 100)] ∧
+    (drun (sm, none) evsm).1.status = .dlmeta := by decide
+
+/-- a download from the peer that announced 5000 > `maxMeta` bytes is refused by `reconcileIdl` -/
+example : ¬ drunAdmissibleI (sm, none) (evsm.dropLast ++ [⟨.exths 2 true 5000 false, kn [1, 2], [], [1, 2]⟩]) := by
+  simp only [evsm, List.dropLast, List.cons_append, List.nil_append, drunAdmissibleI, Ev.admissibleI, and_true]
+  decide
+end Example
 
 end Rain.Props.C13Loop
